@@ -75,7 +75,7 @@ Adopt(s, st) ==
                          LET x == CHOOSE y \in SeqSet(st.lease) : y[1] = a IN
                          IF a \in DOMAIN s.lease /\ s.lease[a].m = <<x[2], x[3]>>
                          THEN [s.lease[a] EXCEPT !.dl = x[4]]
-                         ELSE [m |-> <<x[2], x[3]>>, dl |-> x[4], lo |-> x[4], hi |-> x[4] + Slack]]]
+                         ELSE [m |-> <<x[2], x[3]>>, dl |-> x[4], lo |-> x[4], hi |-> x[4] + Slack, md |-> FALSE]]]
 
 \* Guards on the (adopted) state of one subscription after a turn.
 SubStateGuards(post, st) ==
@@ -101,7 +101,8 @@ SubStateGuards(post, st) ==
       G("C03", \A a, b \in DOMAIN s.lease : a # b => s.lease[a].m # s.lease[b].m),
       \* (a message that is outstanding AND queued exists twice: acknowledging one copy leaves the
       \* other to be delivered after the acknowledgement - C02)
-      G("C02,C03", LeasedMsgs(s) \cap SeqSet(s.queue) = {}),
+      \* (and the queued copy is handed out again before the outstanding delivery's deadline - C04)
+      G("C02,C03,C04", LeasedMsgs(s) \cap SeqSet(s.queue) = {}),
       G("C03", NoDup(s.queue)),
       G("C03", DOMAIN s.lease \subseteq s.used),
       G("C11", s.st = "deleted" => (s.queue = <<>> /\ s.lease = Empty)) }
@@ -286,7 +287,9 @@ RetGuards(c, e) ==
       [] p.op = "CreateSub" ->
         { G("C10", e.code = "NOT_FOUND" => None \in TopicLookups(W, p.topic)),
           \* refused for its topic or project: nothing is created (no other create of the name in flight)
-          G("C10", (Solo(c) /\ e.code \in {"NOT_FOUND", "INVALID_ARGUMENT"}) =>
+          \* (what such a request leaves behind is a subscription that reports a topic which does not
+          \* list it: C11 as well)
+          G("C10,C11", (Solo(c) /\ e.code \in {"NOT_FOUND", "INVALID_ARGUMENT"}) =>
                        ~\E w \in W : w.k = "m.cs" /\ w.name = p.name /\ w.ok),
           G("C10", e.code = "ALREADY_EXISTS" => \E w \in W : w.k = "m.cs" /\ w.name = p.name /\ ~w.ok),
           \* ... and not because of an incarnation whose deletion an EARLIER response already reported
@@ -524,6 +527,13 @@ LateGuards(e) ==
     { G("BIND", e.t >= now),
       G("C04", JudgeLate =>
             \A si \in {x \in DOMAIN S : S[x].st = "live"} : \A a \in DOMAIN S[si].lease :
+                \/ S[si].lease[a].md
+                \/ e.t <= S[si].lease[a].hi
+                \/ (e.k = "s.expire" /\ e.si = si /\ a \in SeqSet(e.acks))),
+      \* ... the same for a delivery whose deadline was set by a ModifyAckDeadline (C05 as well)
+      G("C04,C05", JudgeLate =>
+            \A si \in {x \in DOMAIN S : S[x].st = "live"} : \A a \in DOMAIN S[si].lease :
+                \/ ~S[si].lease[a].md
                 \/ e.t <= S[si].lease[a].hi
                 \/ (e.k = "s.expire" /\ e.si = si /\ a \in SeqSet(e.acks))) }
 
